@@ -145,6 +145,10 @@ func (r *rig) apply(e *edge, check bool) string {
 	switch o.Ev {
 	case "clientnick":
 		r.s.C.Nick(strings.TrimPrefix(o.Expect[0], "NICK "))
+	case "connectagain":
+		if err := r.s.C.Connect(); err == nil {
+			return "C13: Connect on a connected client was not refused"
+		}
 	case "trackoff":
 		if r.tracking {
 			r.s.C.DisableStateTracking()
